@@ -304,6 +304,39 @@ func execHybrid(c hyCase, x *verifkit.Ctx, c15 bool) (fail *verifkit.Failure) {
 			f.Sticky = true
 			return f
 		}
+		if c.Pool {
+			return nil // with the entry pool a queued event can meet a recycled Entry (known finding C05-pool-stale-event)
+		}
+		// at rest (writes applied, workers idle) the memory tier of a hybrid store is as consistent as a plain
+		// one: every resident entry is tracked by the policy exactly once, every tracked entry is resident
+		// (seeded C02h: a worker that releases the slot of its key, not of its entry, leaves the entry of a
+		// key deleted and stored again meanwhile in the policy but not in the map)
+		store.policyMu.Lock()
+		defer store.policyMu.Unlock()
+		view, f := vkCheckPolicy(store.policy, 1<<20)
+		if f != nil {
+			f.Msg = fmt.Sprintf("step %d: %s", step, f.Msg)
+			return f
+		}
+		resident := 0
+		for _, sh := range store.shards {
+			tk := sh.mu.RLock()
+			for k, e := range sh.hashmap {
+				resident++
+				if _, ok := view.where[e]; !ok {
+					sh.mu.RUnlock(tk)
+					return failf("hybrid/untracked-resident", "at rest key %d (value %d) is resident but in no policy region", k, e.value)
+				}
+			}
+			sh.mu.RUnlock(tk)
+		}
+		if resident != len(view.where) {
+			for e := range view.where {
+				if memGet(e.key) != e {
+					return failf("hybrid/ghost-in-policy", "at rest the policy tracks %d entries, %d are resident; key %d (value %d, cost %d) is tracked but the map does not hold that entry", len(view.where), resident, e.key, e.value, e.policyWeight)
+				}
+			}
+		}
 		return nil
 	}
 	demotedPromoted, secFailure, loaderEvicted, ttllessEvicted := false, false, false, false
